@@ -142,3 +142,15 @@ def run(ctx, rep) -> None:
     n = 40 if ctx.quick else 800
     scs = H.gen_scenarios(ctx.seed, n, 'resume') + H.gen_scenarios(ctx.seed, n, 'finalizer') + H.gen_scenarios(ctx.seed, n, 'converge')
     _family.run_traces(rep, scs, 'resume+finalizer+converge', nontrivial=lambda f: bool(f & {'several-reasons', 'resume', 'delete'}))
+    # "creation (never handled before)" over histories in which views older than the operator's own writes arrive while the patch of a
+    # raw-event handler is pending: FreshMonitor.tla (no creation handler on an object whose last-handled state has been stored)
+    from concurrent.futures import ProcessPoolExecutor
+    from vf.props import C07
+    fscs = [s_ for s_ in C07.fresh_scenarios(ctx.seed + 9, 80 if ctx.quick else 1500) if s_.get('mirror')]
+    with ProcessPoolExecutor(16) as ex:
+        ftr = list(ex.map(C07.fresh_case, fscs, chunksize=4))
+    fv = C07.judge_fresh(ftr, rep)
+    rep.evaluations += len(ftr); rep.traces += len(ftr)
+    for t in ftr:
+        if fv[t['id']] != 'ok':
+            rep.violation(f'{t["id"]}: {fv[t["id"]]} {t["scenario"]}', payload=t)
